@@ -257,10 +257,11 @@ Definition win_println (w : window) (s : screen) (row : Z) (segs : list segment)
 
 (* Window.Wrap.  A line segment (the oracle FirstLineSegmentInString applied repeatedly,
    state carried over) is given as the clusters of its text with the style of the Segment
-   it came from.  Note that the measured width is used for [total] only: the first inner
-   loop assigns to its loop variable, so cells and the column advance use the width that
-   Characters returned. *)
+   it came from. *)
 Definition lineseg := (list (text * Z) * Z)%type.
+
+(* the first inner loop: chars[i].Width = characterWidth(...) when re-measuring *)
+Definition measured (ch : character) : character := mkChar (gr ch) (char_width ch).
 
 Fixpoint wrap_chars (w : window) (cols : Z) (chars : list character) (st : Z)
          (s : screen) (col row : Z) : option (screen * (Z * Z)) :=
@@ -291,8 +292,8 @@ Fixpoint wrap_loop (w : window) (cols rows : Z) (lsegs : list lineseg)
       (* "if row >= rows { break }": row never decreases, so every later iteration breaks too *)
       if row >=? rows then Some (s, (col, row))
       else
-        let chars := characters cls in
-        let total := zsum (map char_width chars) in
+        let chars := map measured (characters cls) in
+        let total := zsum (map wd chars) in
         let '(col, row) := if total >? cols then (col, row)           (* break at a grapheme *)
                            else if total + col >? cols then (0, row + 1)  (* no space left *)
                            else (col, row) in
@@ -436,8 +437,8 @@ Fixpoint wrap_places (cols rows : Z) (lsegs : list lineseg) (col row : Z) : list
   | (cls, st) :: t =>
       if row >=? rows then ([], (col, row))
       else
-        let chars := characters cls in
-        let total := zsum (map (char_width measure remeasure) chars) in
+        let chars := map (measured measure remeasure) (characters cls) in
+        let total := zsum (map wd chars) in
         let start := wrap_start cols total col row in
         let here := wrap_chars_places cols chars st (fst start) (snd start) in
         let rest := wrap_places cols rows t (fst (snd here)) (snd (snd here)) in
@@ -656,7 +657,22 @@ Fixpoint no_overlap (d : list (Z * Z * cell)) : bool :=
   | _ => true
   end.
 
-Definition case_holds (c : case) : bool :=
+(* the two lists of changed cells have the same elements *)
+Definition placement_eqb (p q : Z * Z * cell) : bool :=
+  (fst (fst p) =? fst (fst q)) && (snd (fst p) =? snd (fst q)) && cell_eqb (snd p) (snd q).
+Definition diff_same (a b : list (Z * Z * cell)) : bool :=
+  forallb (fun d => existsb (placement_eqb d) b) a && forallb (fun e => existsb (placement_eqb e) a) b.
+
+(* what one SetCell / SetStyle must have changed on a screen that held [bg] everywhere *)
+Definition expected_single (w : window) (s : screen) (bg : cell) (col row : Z) (nc : cell) : list (Z * Z * cell) :=
+  let '(ox, oy) := origin w in
+  if visible w s (ox + col) (oy + row) && negb (cell_eqb nc bg) then [(ox + col, oy + row, nc)] else [].
+
+(* core: no panic, New clamps, nothing outside the clip changed, SetCell/SetStyle change
+   exactly the cell at origin+offset when it is in the clip, and (text helpers on
+   constructed windows) no glyph sticks out of the clip.  proofs/WindowProofs.v shows that
+   every output of the model satisfies it. *)
+Definition case_core_holds (c : case) : bool :=
   let s := bg_screen (c_bg c) (c_cols c) (c_rows c) in
   let ob := c_obs c in
   match window_of_frames (o_frames ob) with
@@ -669,28 +685,39 @@ Definition case_holds (c : case) : bool :=
       forallb (fun d => visible w s (fst (fst d)) (snd (fst d))) (o_diff ob) &&
       (* an accepted cell lands at origin + offset, a rejected one changes nothing *)
       match c_op c with
-      | OSetCell col row cl =>
-          let '(ox, oy) := origin w in
-          if visible w s (ox + col) (oy + row) then diff_eqb (o_diff ob) [(ox + col, oy + row, cl)]
-          else diff_eqb (o_diff ob) []
+      | OSetCell col row cl => diff_same (o_diff ob) (expected_single w s (c_bg c) col row cl)
       | OSetStyle col row st =>
-          let '(ox, oy) := origin w in
-          if visible w s (ox + col) (oy + row)
-          then diff_eqb (o_diff ob) [(ox + col, oy + row, mkCell (cg (c_bg c)) (cw (c_bg c)) st)]
-          else diff_eqb (o_diff ob) []
+          diff_same (o_diff ob) (expected_single w s (c_bg c) col row (mkCell (cg (c_bg c)) (cw (c_bg c)) st))
       | _ => true
       end &&
-      (* text helpers on windows made by the constructors: the whole glyph stays inside,
-         clusters appear in reading order without overlapping *)
-      (if is_text_op (c_op c) then
-         subseq (map (fun d => cg (snd d)) (o_diff ob)) (op_expected (c_op c)) &&
-         (if built_by_constructors (c_win c) then
-            forallb (fun d => let '(x, y, cl) := d in
-                              forallb (fun i => visible w s (x + i) y) (zrange (glyph_w cl))) (o_diff ob) &&
-            no_overlap (o_diff ob)
-          else true)
+      (* text helpers on windows made by the constructors: the whole glyph stays inside *)
+      (if is_text_op (c_op c) && built_by_constructors (c_win c) then
+         forallb (fun d => forallb (fun i => visible w s (fst (fst d) + i) (snd (fst d)))
+                                   (zrange (glyph_w (snd d)))) (o_diff ob)
        else true)
   end.
+
+(* further clauses, checked on every observation *)
+Definition case_more_holds (c : case) : bool :=
+  let s := bg_screen (c_bg c) (c_cols c) (c_rows c) in
+  let ob := c_obs c in
+  match window_of_frames (o_frames ob) with
+  | None => false
+  | Some w =>
+      (* text helpers: clusters appear in reading order, whole, without overlapping *)
+      (if is_text_op (c_op c) then
+         subseq (map (fun d => cg (snd d)) (o_diff ob)) (op_expected (c_op c)) &&
+         (* when the terminal's own width measurement is in force, the cell carries it (and
+            the column advance, see no_overlap, follows it) *)
+         (if c_remeasure c then
+            forallb (fun d => zlist_eqb (cg (snd d)) ellipsis ||
+                              (cw (snd d) =? tab_measure (c_tab c) (cg (snd d)))) (o_diff ob)
+          else true) &&
+         (if built_by_constructors (c_win c) then no_overlap (o_diff ob) else true)
+       else true)
+  end.
+
+Definition case_holds (c : case) : bool := case_core_holds c && case_more_holds c.
 
 Definition c11_draw_mismatches (cases : list case) : list Z :=
   bad_indices (fun c => negb (case_agrees c)) cases.
